@@ -253,3 +253,91 @@ pub fn order_workspaces() -> Vec<(BTreeMap<String, Vec<String>>, Vec<(String, us
         ]),
     ]
 }
+
+// ------------------------------------------------------------------ split declarations
+//
+// One workspace per *kind of per-file contribution to a shared declaration*: a type declared in
+// two files where only the "carrier" (s1) contributes the super type / generic parameters /
+// fields / operators+overload / enum base+alias origin, the second file (s2) merely re-declares
+// the type (variant 1 of s2 contributes something different), and an observer file (s3) uses the
+// type. (The description split is the class `A` of the main universe: a.lua v0 / b/init.lua v0.)
+// Every index that keys entries by the shared declaration must prune exactly the re-submitted
+// file's share.
+
+pub struct Ws {
+    pub name: &'static str,
+    pub base: Case,
+    pub assign: Vec<(String, usize)>,
+    pub split: bool,
+}
+
+pub const S1: &str = "main/s1.lua";
+pub const S2: &str = "main/s2.lua";
+pub const S3: &str = "main/s3.lua";
+
+fn split_ws(name: &'static str, s1: &[&str], s2: &[&str], s3: &[&str]) -> Ws {
+    let mut texts: BTreeMap<String, Vec<String>> = BTreeMap::new();
+    texts.insert(S1.into(), s1.iter().map(|s| s.to_string()).collect());
+    texts.insert(S2.into(), s2.iter().map(|s| s.to_string()).collect());
+    texts.insert(S3.into(), s3.iter().map(|s| s.to_string()).collect());
+    Ws { name, base: Case { texts, configs: configs(), ops: vec![], seams: Default::default() }, assign: vec![(S1.into(), 0), (S2.into(), 0), (S3.into(), 0)], split: true }
+}
+
+pub fn split_workspaces() -> Vec<Ws> {
+    // the shared type has the same name (`W`, alias `Id`) in every workspace so that one root
+    // cause reduces to one witness whatever workspace exposed it
+    vec![
+        // (a) super type
+        split_ws(
+            "split-super",
+            &[
+                "---@class Base\n---@field bf integer\n\n---@class W: Base\nlocal W = {}\nreturn W\n",
+                "---@class Base\n---@field bf integer\n\n---@class W\nlocal W = {}\nreturn W\n",
+            ],
+            &["---@class W\n", "---@class Other\n---@field of string\n\n---@class W: Other\n"],
+            &["---@type W\nlocal w\nlocal a = w.bf\nlocal b = w.of\n"],
+        ),
+        // (b) generic parameters
+        split_ws(
+            "split-generic",
+            &["---@class W<T>\n---@field value T\n", "---@class W\n---@field value any\n"],
+            &["---@class W\n", "---@class W<U>\n---@field other U\n"],
+            &["---@type W<string>\nlocal w\nlocal v = w.value\nlocal o = w.other\n"],
+        ),
+        // (c) fields
+        split_ws(
+            "split-fields",
+            &["---@class W\n---@field f integer the f field\nlocal W = {}\nfunction W:m() end\nreturn W\n", "---@class W\nlocal W = {}\nreturn W\n"],
+            &["---@class W\n", "---@class W\n---@field f string\n---@field g boolean\n"],
+            &["---@type W\nlocal w\nlocal x = w.f\nlocal y = w.g\nlocal z = w:m()\n"],
+        ),
+        // (d) operators and call overload
+        split_ws(
+            "split-operator",
+            &["---@class W\n---@operator add(W): W\n---@operator unm: W\n---@overload fun(n: integer): W\n", "---@class W\n"],
+            &["---@class W\n", "---@class W\n---@operator add(W): integer\n"],
+            &["---@type W\nlocal w\nlocal s = w + w\nlocal n = -w\nlocal c = w(1)\n"],
+        ),
+        // (f) enum fields and alias origin
+        split_ws(
+            "split-enum-alias",
+            &["---@enum Mode\nMode = { On = 1, Off = 2 }\n\n---@alias Id integer|string\n", "---@enum (key) Mode\nMode = { On = 1 }\n\n---@alias Id boolean\n"],
+            &["---@enum Mode\n\n---@alias Id\n", "---@alias Id table\n"],
+            &["---@type Mode\nlocal m = Mode.On\n---@type Id\nlocal n\n"],
+        ),
+    ]
+}
+
+pub fn load_s(assign: &[(String, usize)]) -> Op {
+    Op::Batch { items: assign.iter().map(|(f, v)| (f.clone(), Some(*v))).collect(), order: None, rorder: None }
+}
+
+/// the designed workspaces of the main universe followed by the split workspaces
+pub fn all_workspaces(tier_thorough: bool) -> Vec<Ws> {
+    let mut out: Vec<Ws> = workspaces(tier_thorough)
+        .into_iter()
+        .map(|w| Ws { name: "main", base: base_case(&FILES), assign: w.iter().map(|(f, v)| (f.to_string(), *v)).collect(), split: false })
+        .collect();
+    out.extend(split_workspaces());
+    out
+}
